@@ -73,7 +73,9 @@ CopyFails(e) ==
              \cup (IF Range(e.out.set) = Range(e.set_before) THEN {} ELSE {"copy-set-record"})
              \cup (IF e.isnew = "T" THEN {} ELSE {"copy-not-new-object"})
              \cup (IF e.cls.eq = "T" /\ e.eqorig = "F" THEN {"copy-not-equal"} ELSE {})
-             \cup (IF e.hook = 1 THEN {} ELSE {"post-init-run-count"}))
+             \cup (IF e.hook = 1 THEN {} ELSE {"post-init-run-count"})
+             \* (unfrozen classes) a field was assigned on the copy afterwards: the original's record of set fields is unchanged
+             \cup (IF "indep" \in DOMAIN e /\ e.indep = "F" THEN {"copy-shares-set-record"} ELSE {}))
   ELSE \* replace: constructor semantics over the set fields updated with the changes
        LET chIdx == {e.ch[i][1] : i \in DOMAIN e.ch}
            wrong == \E i \in DOMAIN e.ch : e.ch[i][2] = -1        \* -1 encodes a value of the wrong kind
